@@ -5,6 +5,7 @@ package c09
 
 import (
 	"fmt"
+	"os"
 	"sort"
 	"strconv"
 	"strings"
@@ -13,6 +14,8 @@ import (
 
 	"github.com/influxdata/kapacitor/alert"
 	alertservice "github.com/influxdata/kapacitor/services/alert"
+	"github.com/influxdata/kapacitor/services/httpd"
+	"github.com/influxdata/kapacitor/services/storage/storagetest"
 
 	"verifharness/kit"
 )
@@ -36,16 +39,77 @@ var svcTopics = []string{"t0", "t1", "p0", "p1", "p2"}
 type svcRec struct {
 	mu  sync.Mutex
 	got map[string][]string
+	// a GATED recorder (op `sgate`): Handle records the event and then blocks until the gate is opened, so the
+	// handler's queue (bufHandler channel) behind it fills up and overflows deterministically
+	gate    chan struct{}
+	entered chan struct{}
+	once    sync.Once
 }
 
 func (h *svcRec) Handle(e alert.Event) {
 	h.mu.Lock()
 	h.got[e.Topic] = append(h.got[e.Topic], fmt.Sprintf("%s:%d:%d:%d", kit.Esc(e.State.ID), int(e.State.Level), e.State.Time.UnixNano(), int(e.PreviousState().Level)))
 	h.mu.Unlock()
+	if h.gate != nil {
+		h.once.Do(func() { close(h.entered) })
+		<-h.gate
+	}
+}
+
+// svcCap is the queue capacity of the service the overflow cases (`scap`) run on: the smallest the code accepts
+// (alert.MinimumEventBufferSize; anything below is replaced by the default 5000).
+const svcCap = alert.MinimumEventBufferSize
+
+var theCapSvc *alertservice.Service
+
+func capSvc(tm *kit.TM) *alertservice.Service {
+	if theCapSvc == nil {
+		as := alertservice.NewService(kit.Diag().NewAlertServiceHandler(), nil, svcCap)
+		as.StorageService = storagetest.New(&kit.TempDirer{}, kit.Diag().NewStorageHandler())
+		// its own HTTP service: the API routes of an alert service can be registered only once per HTTP service
+		cfg := httpd.NewConfig()
+		cfg.BindAddress = "127.0.0.1:0"
+		cfg.LogEnabled = false
+		hs := httpd.NewService(cfg, "localhost", nil, kit.Diag().NewHTTPDHandler())
+		if err := hs.Open(); err != nil {
+			fmt.Fprintln(os.Stderr, "cannot open the HTTP service of the small-buffer alert service:", err)
+			os.Exit(2)
+		}
+		as.HTTPDService = hs
+		if err := as.Open(); err != nil {
+			fmt.Fprintln(os.Stderr, "cannot build the small-buffer alert service:", err)
+			os.Exit(2)
+		}
+		theCapSvc = as
+	}
+	return theCapSvc
 }
 
 func execSvcCase(tm *kit.TM, ops []string) (out []string) {
 	as := tm.Alert
+	hasGate := false
+	for _, l := range ops {
+		if strings.HasPrefix(l, "scap ") {
+			as = capSvc(tm) // bounded-queue cases run on the service with the smallest accepted topic buffer
+		}
+		if strings.HasPrefix(l, "sgate ") {
+			hasGate = true
+		}
+	}
+	type gateT struct {
+		topic string
+		r     *svcRec
+		base  int64
+	}
+	var gates []gateT
+	collected := func(topic string) int64 {
+		st, ok, _ := as.TopicState(topic)
+		if !ok {
+			return 0
+		}
+		return st.Collected
+	}
+	ncollect := 0
 	recs := map[string]*svcRec{}
 	rec := func(n string) *svcRec {
 		if r, ok := recs[n]; ok {
@@ -102,6 +166,12 @@ func execSvcCase(tm *kit.TM, ops []string) (out []string) {
 			return
 		}
 		drained = true
+		if len(gates) > 0 {
+			flush() // first everything to the end of its chain while the gates are still shut (overflowing there)
+		}
+		for _, g := range gates {
+			close(g.r.gate) // open every gate: the blocked handlers go on and drain their queues
+		}
 		flush()
 		// close topic by topic in topological order: closing a topic drains its handler queues, which
 		// publishes downstream synchronously; downstream topics are closed afterwards.
@@ -134,7 +204,38 @@ func execSvcCase(tm *kit.TM, ops []string) (out []string) {
 		if t[0] != "scollect" && t[0] != "final" {
 			flush()
 		}
+		if t[0] == "scollect" && hasGate {
+			// bounded-queue cases collect in long bursts: keep the queues of the handlers that are NOT gated short,
+			// so that only the gated handler's queue can overflow (deterministic)
+			ncollect++
+			if ncollect%100 == 0 {
+				flush()
+			}
+		}
 		switch t[0] {
+		case "scap":
+			guard(line, func() string { return strconv.Itoa(svcCap) })
+		case "sgate":
+			guard(line, func() string {
+				r := rec(un(t[2]))
+				r.gate, r.entered = make(chan struct{}), make(chan struct{})
+				gates = append(gates, gateT{un(t[1]), r, collected(un(t[1]))})
+				as.RegisterAnonHandler(un(t[1]), r)
+				anon[regKey{un(t[1]), un(t[2])}] = true
+				return ""
+			})
+		case "ssync":
+			// (the flush above has pushed every event to the end of its chain) a gate whose topic has collected
+			// something since the gate was registered has its first event queued: wait until its goroutine has
+			// taken it and blocks in Handle
+			guard(line, func() string {
+				for _, g := range gates {
+					if collected(g.topic) > g.base {
+						<-g.r.entered
+					}
+				}
+				return ""
+			})
 		case "srec":
 			guard(line, func() string {
 				as.RegisterAnonHandler(un(t[1]), rec(un(t[2])))
@@ -390,6 +491,63 @@ func genSvcCase(r *kit.Rand, size int, multi bool) []string {
 		}
 	}
 	for _, rn := range []string{"r0", "r1"} {
+		for _, t := range svcTopics {
+			ops = append(ops, fmt.Sprintf("final srec %s %s", rn, t))
+		}
+	}
+	return ops
+}
+
+// genGateCase: a bounded-queue (overflow) case. One publish handler on a source with two or three target topics; a
+// GATED recorder on one of the targets holds one event inside Handle, then its queue (capacity svcCap) fills up and
+// every further event overflows for THAT handler only: the topic state, the topic's other handlers (a plain recorder,
+// sometimes a further publish handler) and the handler's other target topics must all still get every event.
+func genGateCase(r *kit.Rand) []string {
+	ops := []string{fmt.Sprintf("scap %d", svcCap)}
+	src := svcTopics[r.Intn(2)]
+	tgs := [][]string{{"p0", "p1"}, {"p1", "p0"}, {"p0", "p1", "p2"}, {"p1", "p2", "p0"}, {"p2", "p0", "p1"}}[r.Intn(5)]
+	gateTopic := tgs[r.Intn(len(tgs))]
+	if r.Chance(2, 3) {
+		gateTopic = tgs[0] // the overflowing target listed first: the later targets are the interesting ones
+	}
+	m := []int{0, 0, 1}[r.Intn(3)] // no match expression, or level() >= WARNING
+	for _, t := range tgs {
+		ops = append(ops, fmt.Sprintf("srec %s r%d", t, r.Intn(2)))
+	}
+	if r.Chance(1, 2) {
+		ops = append(ops, fmt.Sprintf("srec %s r1", src))
+	}
+	ops = append(ops, fmt.Sprintf("sreg %s h0 %d %s", src, m, strings.Join(tgs, ",")))
+	if gateTopic != "p2" && r.Chance(1, 2) {
+		ops = append(ops, fmt.Sprintf("sreg %s h1 0 p2", gateTopic)) // a publish handler next to the gated recorder
+		if r.Chance(1, 2) {
+			ops = append(ops, "srec p2 r0")
+		}
+	}
+	ops = append(ops, fmt.Sprintf("sgate %s g0", gateTopic))
+	ids := []string{"a", "b", "c"}
+	tm := int64(5000)
+	passed := 0
+	collect := func() {
+		tm++
+		lv := r.Intn(4)
+		if m == 0 || lv >= 2 {
+			passed++
+		}
+		ops = append(ops, fmt.Sprintf("scollect %s %s %d %d host=a", src, kit.Pick(r, ids), lv, tm))
+	}
+	for passed < 1 {
+		collect()
+	}
+	ops = append(ops, "ssync") // the gated handler now holds the first event inside Handle
+	extra := 2 + r.Intn(8)
+	for passed < 1+svcCap+extra {
+		collect()
+		if passed == 1+svcCap && r.Chance(1, 2) {
+			ops = append(ops, fmt.Sprintf("srec %s r%d", kit.Pick(r, tgs), r.Intn(2))) // a configuration operation at the brim
+		}
+	}
+	for _, rn := range []string{"r0", "r1", "g0"} {
 		for _, t := range svcTopics {
 			ops = append(ops, fmt.Sprintf("final srec %s %s", rn, t))
 		}
